@@ -33,11 +33,18 @@ type StandardClass struct {
 	pkg             *slip.Package
 	precedence      []slip.Symbol
 	defaultInitArgs map[string]slip.Object
+	allDefaults     []*defaultInitArg
 	initArgs        map[string][]*SlotDef // map with keys of initargs, one SlotDef for each slot filled
 	initForms       map[string]*SlotDef
 	methods         map[string]*slip.Method
 	baseClass       slip.Symbol
 	Final           bool
+}
+
+// defaultInitArg is an initarg and the form that gives its default value.
+type defaultInitArg struct {
+	key  string
+	form slip.Object
 }
 
 // String representation of the Object.
@@ -411,6 +418,13 @@ func (c *StandardClass) mergeSupers() bool {
 			c.initForms[sd.name] = sd
 		}
 	}
+	c.allDefaults = c.allDefaults[:0]
+	c.addDefaults(c.defaultInitArgs)
+	for _, ic := range c.inherit {
+		if sc, ok := ic.(isStandardClass); ok {
+			c.addDefaults(sc.defaultsMap())
+		}
+	}
 	c.precedence = make([]slip.Symbol, 0, len(c.inherit)+3)
 	c.precedence = append(c.precedence, slip.Symbol(c.name))
 	for _, ic := range c.inherit {
@@ -480,6 +494,28 @@ func (c *StandardClass) initFormMap() map[string]*SlotDef {
 
 func (c *StandardClass) defaultsMap() map[string]slip.Object {
 	return c.defaultInitArgs
+}
+
+// addDefaults appends the default initargs of a class to allDefaults, which
+// is in class precedence order, unless a more specific class already gave a
+// default for the initarg.
+func (c *StandardClass) addDefaults(defaults map[string]slip.Object) {
+	keys := make([]string, 0, len(defaults))
+	for k := range defaults {
+		keys = append(keys, k)
+	}
+	sort.Strings(keys)
+	for _, k := range keys {
+		if !slices.ContainsFunc(c.allDefaults, func(d *defaultInitArg) bool { return d.key == k }) {
+			c.allDefaults = append(c.allDefaults, &defaultInitArg{key: k, form: defaults[k]})
+		}
+	}
+}
+
+// allDefaultInitArgs returns the default initargs of the class and of the
+// classes it inherits from, those of the most specific class first.
+func (c *StandardClass) allDefaultInitArgs() []*defaultInitArg {
+	return c.allDefaults
 }
 
 func (c *StandardClass) precedenceList() []slip.Symbol {
